@@ -1189,7 +1189,7 @@ func (e *env) main(inClose, closeReturned *bool) {
 	// registry trace (all phases)
 	h := fnv.New64a()
 	for _, c := range tracer.Calls {
-		obs.Reg = append(obs.Reg, model.RegCall{Seq: c.Seq, Op: c.Op, Name: c.Name, Ref: c.Ref, Raw: c.Raw, Err: c.Err, Bool: c.Bool, Depth: c.Depth})
+		obs.Reg = append(obs.Reg, model.RegCall{Seq: c.Seq, Op: c.Op, Name: c.Name, Ref: c.Ref, Raw: c.Raw, Proxy: c.Proxy, Err: c.Err, Bool: c.Bool, Depth: c.Depth})
 		if c.Seq <= obs.EndOfRun || obs.EndOfRun <= 0 {
 			fmt.Fprintf(h, "%s|%s|%t|%t;", c.Op, c.Name, c.Ref != 0, c.Err)
 		}
